@@ -114,9 +114,10 @@ MonDecode(m0, ev) ==
   LET m == [m0 EXCEPT !.ctr.k = @ + 1, !.ctr.calls = @ + 1] IN
   IF m.desync THEN m
   ELSE IF ev.res = "P" THEN
-    \* a panic is data: allowed only when the history reused a finished decoder
+    \* a panic is data: allowed only when the history reused a finished decoder or offered less than the
+    \* documented minimum output space
     LET strBad == m.cfg.sink \in {"str", "string"} /\ ~Utf8WellFormed(ev.post)
-        tags == Tags(<< <<~m.done, "C06.panic">>, <<strBad, "C05.str-after-panic">> >>)
+        tags == Tags(<< <<~m.done /\ ev.cap >= MinCap(m.cfg.sink), "C06.panic">>, <<strBad, "C05.str-after-panic">> >>)
     IN  [AddViols(m, tags) EXCEPT !.desync = TRUE]
   ELSE IF m.done THEN [m EXCEPT !.desync = TRUE]
   ELSE
